@@ -109,7 +109,9 @@ def execute_cases(ctx):
                 algos = tuple(algo_cls[i](TableConfig(), table={"0,0,0": [float(i)]}, logdir=logdir) for i in range(n))
                 tasks = tuple(task_cls[j](variables=[ContinuousMultiVariable(name="x", lower_bounds=[-1.0], upper_bounds=[1.0])]) for j in range(m))
                 mt = Multitask(algos, tasks, modes=modes, n_workers=2)
-                with quiet(): mt.execute(n_trials=n_trials, n_jobs=2)
+                dbg = r.random() < 0.4                  # the debug flag only prints: tables and plan must be the same
+                meta["debug"] = dbg
+                with quiet(): mt.execute(n_trials=n_trials, n_jobs=2, debug=dbg)
                 calls = read_call_log(logdir)
                 want = designated(n, m, modes)
                 from collections import Counter
